@@ -207,9 +207,27 @@ func txnStep(pfx string, m *dyn.Model, e *txn.Engine, pre *ref.DB, ops []ref.Op,
 		return nil
 	}
 	if rep.Failed {
+		// the outcome of a zero-timeout wait is a result like any other: "timed out"
+		// although the reference finds the condition satisfied is a wrong outcome
+		if i := rep.FailIndex; i >= 0 && i < len(ops) && ops[i].Kind == "wait" && rep.FailErr == "timed out" {
+			refFail := len(ops) + 1
+			if out.Failed() && out.CommitErr == "" {
+				refFail = len(out.Results) - 1
+			}
+			if refFail > i {
+				if r != nil {
+					r.Count("wait_operations_judged", 1)
+				}
+				return []finding{{fmt.Sprintf("%s/wait/timed-out-although-condition-holds/until%s/%s", pfx, ops[i].Until, waitShape(m.S, ops[i])),
+					fmt.Sprintf("operation %d: wait until %s timed out, but the rows selected by its condition %s the given rows", i, ops[i].Until, map[string]string{"==": "equal", "!=": "differ from"}[ops[i].Until])}}
+			}
+		}
 		if r != nil {
 			if out.Failed() {
 				r.Count("rejected_by_both", 1)
+				if rep.FailErr == "timed out" {
+					r.Count("wait_operations_timed_out_in_both", 1)
+				}
 			} else {
 				r.Count("spurious_rejections", 1)
 				r.SetAdd("spurious_rejection_classes", errClassOf(rep.FailErr+" "+rep.FailWhy))
@@ -228,6 +246,11 @@ func txnStep(pfx string, m *dyn.Model, e *txn.Engine, pre *ref.DB, ops []ref.Op,
 	fs = append(fs, immutableChanged(pfx, pre, post)...)
 	if r != nil {
 		r.Count("accepted", 1)
+		for _, op := range ops {
+			if op.Kind == "wait" {
+				r.Count("wait_operations_satisfied_in_both", 1)
+			}
+		}
 		changed := !post.Equal(pre)
 		returned := false
 		for _, res := range rep.Results {
@@ -243,6 +266,23 @@ func txnStep(pfx string, m *dyn.Model, e *txn.Engine, pre *ref.DB, ops []ref.Op,
 		}
 	}
 	return fs
+}
+
+// waitShape: kinds of the compared columns and how the given rows relate to the table.
+func waitShape(s *tspace.Schema, op ref.Op) string {
+	t := s.Table(op.Table)
+	kinds := map[string]bool{}
+	for _, cn := range op.Columns {
+		if c := t.Col(cn); c != nil {
+			kinds[c.Kind()+":"+c.Key.Type] = true
+		}
+	}
+	var ks []string
+	for k := range kinds {
+		ks = append(ks, k)
+	}
+	sort.Strings(ks)
+	return fmt.Sprintf("rows=%d/%s", minInt(len(op.Rows), 3), strings.Join(ks, ","))
 }
 
 func c03Child(r *ev.Run, batch int) {
@@ -268,7 +308,7 @@ func c03Child(r *ev.Run, batch int) {
 			continue
 		}
 		g := gen.New(p, s)
-		g.NoWait = true
+		g.NoWait = si%3 != 2 // every third schema: zero-timeout wait operations too
 		pre := ref.NewDB(s)
 		judge := c03Judge(m)
 		var hist [][]ref.Op
